@@ -76,10 +76,12 @@ PROPS = {
             "level_text": "Theorems (Ktm/Props/C08.lean): for EVERY scenario and EVERY crash index k the disk is consistent (DiskOK) with the "
                           "state before or after the interrupted operation; hence restart succeeds, satisfies the invariant (unique ids), keeps "
                           "every durably ended trial untouched and unqueued, queues every RUNNING trial, keeps the trial count, and the resumed "
-                          "run respects the budget. The suite enumerates every crash index of every generated scenario on the real code.",
+                          "run respects the budget; the same again for a second crash during the resumed run. The suite enumerates every crash index of every "
+                          "generated scenario on the real code.",
             "level_note": CORE_NOTE + " Writes are atomic whole-file writes (as the property stipulates); 'durably recorded' = listed in the on-disk "
-                          "end_order. A second crash between the reload and the first later oracle-file write is exercised by the suite "
-                          "(thorough tier: second crash after every first crash) but not covered by a theorem (second_crash_partial). The "
+                          "end_order. A second crash is covered too (Ktm/PersistSecond.lean: every crash point of the requests a restarted process begins "
+                          "with leaves a consistent disk; after the first trial handed out memory and disk are DiskOK again, so later crash points are "
+                          "first-crash points), and injected by the suite (quick: after every third first crash; thorough: after every one). The "
                           "tuner-level restart (tuner0.json) is part of the `search` suite (C19).",
             "assumptions": ["atomic whole-file writes", "durably recorded = listed in the on-disk end_order"]},
     "C04": {"suites": [ORACLE_SMALL, SYMMETRY],
